@@ -257,6 +257,13 @@ def _o_iter(case):
         sock = ScriptedSocket(streams.split(encoded, [c for c in case["cuts"] if 0 < c < len(encoded)]) + [case.get("end", "close")])
         sock.budget = 6 * len(encoded) + 256
         stream = sock
+    elif case["stream"] == "socket":
+        # a plain TCP socket (no transfer coding), generated segmentation
+        from pv.doubles import ScriptedSocket
+
+        sock = ScriptedSocket(streams.split(data, [c for c in case.get("cuts", []) if 0 < c < len(data)]) + [case.get("end", "close")])
+        sock.budget = 6 * len(data) + 256
+        stream = sock
     elif case["stream"] == "nonseekable":
         # a pipe / serial-like object: has seek() and tell() attributes (io.BufferedReader) but cannot seek
         import io
@@ -286,7 +293,7 @@ def _o_iter(case):
         stream = BudgetBytesIO(data)
     calls = []
     try:
-        rdr = RTCMReader(stream, validate=case["validate"], quitonerror=qoe, parsed=case["parsed"], errorhandler=((lambda e: calls.append(e) or True) if case["handler"] == 2 else (lambda e: calls.append(e))) if case["handler"] else None, **({"encoding": __import__("pv.checks.c12", fromlist=["ENC"]).ENC[case["enc"]], "bufsize": 4096} if sock is not None else {}))
+        rdr = RTCMReader(stream, validate=case["validate"], quitonerror=qoe, parsed=case["parsed"], errorhandler=((lambda e: calls.append(e) or True) if case["handler"] == 2 else (lambda e: calls.append(e))) if case["handler"] else None, **({"bufsize": 4096} if case["stream"] == "socket" else {"encoding": __import__("pv.checks.c12", fromlist=["ENC"]).ENC[case["enc"]], "bufsize": 4096} if sock is not None else {}))
         return _iterate(case, rdr, stream, data, qoe, sock)
     except (Fail, HardStop):
         raise
@@ -332,7 +339,7 @@ def _iterate(case, rdr, stream, data, qoe, sock):
 @st.composite
 def s_iter(draw, tier):
     items = streams.flatten(draw(st.lists(streams.adversarial_items("small"), min_size=1, max_size=10)))
-    kind = draw(st.sampled_from(["scripted", "scripted", "bytesio", "chunked-socket", "nonseekable"]))
+    kind = draw(st.sampled_from(["scripted", "scripted", "bytesio", "chunked-socket", "nonseekable", "socket"]))
     extra = {}
     if kind == "nonseekable":
         extra = {"chunk": draw(st.sampled_from([1, 2, 16, 64, 8192]))}
@@ -340,6 +347,9 @@ def s_iter(draw, tier):
             # the stream ends inside the last item (after 1, 2, 3 ... bytes of a frame)
             last = bytes.fromhex(items[-1]["b"])
             items = items[:-1] + [{"k": "decoy", "b": last[: draw(st.integers(1, max(1, len(last) - 1)))].hex(), "decoy": "truncated"}]
+    if kind == "socket":
+        n = sum(len(i["b"]) // 2 for i in items)
+        extra = {"cuts": draw(streams.partitions(max(2, n))), "end": draw(st.sampled_from(["close", "close", "dead"]))}
     if kind == "chunked-socket":
         n = sum(len(i["b"]) // 2 for i in items)
         raw = draw(st.one_of(st.none(), st.none(), st.sampled_from([b"ked\r\n\r\n", b"Transfer-Encoding: chunked\r\n\r\n", b"zz\r\n", b"1g\r\n", b"ffffffffffffffffffff\r\nabc\r\n", b"7fffffffffffffff\r\n", b"-ffffffffffffffffffff\r\nabc\r\n", b"-8000000000000000000\r\n", b"-1\r\n", b"-4\r\n", b"-5\r\n", b"-6\r\n", b"-7\r\n", b"-9\r\n", b"-a\r\n", b"-10\r\n", b"+3\r\nabc\r\n", b"0x10\r\n", b" 5 \r\nhello\r\n", b"5;ext=1\r\nhello\r\n"]), st.binary(min_size=1, max_size=30)))
@@ -389,6 +399,17 @@ def e_iter_long(tier, shard, nshards):
                 items.append({"k": "decoy", "b": b.hex()})
             items.append(good)
             yield {"items": items, "stream": "bytesio", "script": [], "qoe": qoe, "validate": 1, "parsed": True, "handler": bool(j & 1), "long": n}
+    # the largest read requests the reader can make (UBX items with length field 0xFFFE / 0xFFFF: 65536 / 65537 bytes in
+    # one read) over a socket that has all of it and more to give
+    for ln in (0xFFFE, 0xFFFF):
+        k += 1
+        if k % nshards != shard:
+            continue
+        body = bytes((i * 11) & 0x7F | 1 for i in range(ln))  # no sync bytes, nothing that ends a line
+        u = b"\xb5\x62\x01\x02" + ln.to_bytes(2, "little") + body + b"\x11\x22"
+        items = [good, {"k": "ubx", "b": u.hex()}, good, {"k": "ubx", "b": u.hex()}, good]
+        yield {"items": items, "stream": "chunked-socket", "script": [], "qoe": 0, "validate": 1, "parsed": True, "handler": False, "long": ln, "enc": "none", "chunk": 50000, "cuts": [], "rawchunked": None, "end": "close"}
+        yield {"items": items, "stream": "socket", "script": [], "qoe": 0, "validate": 1, "parsed": True, "handler": False, "long": ln, "cuts": [], "end": "close"}
 
 
 def _short(c):
